@@ -474,3 +474,24 @@ Proof.
   cbn [read_line String.eqb Ascii.eqb Bool.eqb]. unfold read_gene.
   destruct rest as [|t2 [|t3 [|t4 [|t5 [|t6 [|t7 [|t8 l]]]]]]]; simpl in *; try lia; eauto.
 Qed.
+
+(* ---------- the hypotheses in range form (used by props/C15.v) ---------- *)
+
+Lemma fits_bits_spec : forall b z, fits_bits b z = true <-> - 2 ^ (b - 1) <= z < 2 ^ (b - 1).
+Proof.
+  intros b z. unfold fits_bits. rewrite andb_true_iff, Z.leb_le, Z.ltb_lt. tauto.
+Qed.
+
+Lemma plain_ok_of_ranges : forall reg g,
+  Forall (fun t => (8 <= length (t_params t))%nat) (traits g) ->
+  NoDup (filter (fun z => negb (Z.eqb z 0)) (map t_id (traits g))) ->
+  NoDup (map n_id (nodes g)) ->
+  Forall (fun n => - 2 ^ 31 <= n_id n < 2 ^ 31 /\ - 2 ^ 31 <= oz_id (n_trait n) < 2 ^ 31 /\
+                   0 <= n_type n < 128 /\ exists s, reg_name reg (n_act n) = Some s) (nodes g) ->
+  plain_ok reg g.
+Proof.
+  intros reg g H1 H2 H3 H4. constructor; try assumption.
+  eapply Forall_impl; [|exact H4]. intros n (A & B & C & D). repeat split; try assumption; try lia.
+  - apply fits_bits_spec. simpl. lia.
+  - apply fits_bits_spec. simpl. lia.
+Qed.
